@@ -19,6 +19,13 @@ _NPROC = None
 
 
 def _init(controlled):
+    # joblib answers effective_n_jobs() == 1 inside a daemonic process ("no nested
+    # parallelism"); code under test that branches on the worker count must see what it
+    # would see in a user's main process
+    try:
+        mp.current_process()._config["daemon"] = False
+    except Exception:
+        pass
     if VERIF not in sys.path:
         sys.path.insert(0, VERIF)
     from mc import boot
